@@ -174,7 +174,9 @@ def _avg_loss(p, ex):
 
 def hyp(case):
   k, depth, sopt = case['clusters'], case['depth'], case['sopt']
-  alg, init = systems.build('hyp_cluster', clusters=k, sopt=sopt, lr_c=0.125, lr_s=0.5, loss='plain')
+  lam = case.get('reg')   # optional regularizer lam/2 * |params|^2: part of the average loss that decides the assignment
+  alg, init = systems.build('hyp_cluster', clusters=k, sopt=sopt, lr_c=0.125, lr_s=0.5, loss='plain', reg=lam)
+  regv = lambda p: 0.5 * lam * float(sum(np.sum(np.asarray(v, np.float64) ** 2) for v in p.values())) if lam else 0.0
   _, c_ref = algos.make_opt('sgd', 0.125)
   _, s_ref = algos.make_opt(sopt, 0.5)
   hparams = systems._hp(2, 1, None, 0)
@@ -208,7 +210,10 @@ def hyp(case):
       require(set(diag) == {c[0] for c in cohort}, 'diagnostics ids', case=nc)
       assign = {}
       for cid, ds, _ in cohort:
-        losses = [_avg_loss(p, ds.raw_examples) for p in ref_p]
+        data_losses = [_avg_loss(p, ds.raw_examples) for p in ref_p]
+        losses = [dl + regv(p) for dl, p in zip(data_losses, ref_p)]
+        if lam and int(np.argmin(data_losses)) != int(np.argmin(losses)):
+          stats['reg_decides'] = stats.get('reg_decides', 0) + 1
         a = int(diag[cid]['cluster_id'])
         require(0 <= a < k and losses[a] <= min(losses) + 1e-5 * (1 + abs(min(losses))),
                 'client %r assigned to cluster %d whose average loss is not minimal' % (cid, a), losses, a, case=nc)
@@ -228,7 +233,7 @@ def hyp(case):
           continue
         tot = {kk: np.zeros_like(v) for kk, v in ref_p[j].items()}
         for cid, ds, key in mine:
-          delta, _ = algos.ref_client_delta(ref_p[j], list(ds.shuffle_repeat_batch(hparams)), key, c_ref, 'plain')
+          delta, _ = algos.ref_client_delta(ref_p[j], list(ds.shuffle_repeat_batch(hparams)), key, c_ref, 'plain', l2=lam)
           for kk in tot:
             tot[kk] += len(ds) * delta[kk]
         mean = {kk: v / ntot for kk, v in tot.items()}
@@ -253,7 +258,8 @@ def hyp(case):
   return {'evals': stats['transitions'], 'states': stats['states'], 'transitions': stats['transitions'],
           'traces': stats['transitions'], 'outcomes': sorted(outs), 'nontrivial': True,
           'keys': [['hyp', k, sopt, i] for i in range(stats['transitions'])],
-          'stats': {'untouched_cluster_checks': stats['untouched']}}
+          'stats': {'untouched_cluster_checks': stats['untouched'],
+                    'assignments_decided_by_the_regularizer': stats.get('reg_decides', 0)}}
 
 
 # ---- MimeLite ---------------------------------------------------------------------------------------------
@@ -325,7 +331,13 @@ def ignore_grads(case):
   import jax
   import jax.numpy as jnp
   import fedjax
-  base, _ = algos.make_opt(case['base'], 0.25)
+  if case['base'] == 'clipmom':
+    # a base optimizer that couples the leaves (global-norm clipping): gradients of ignored parameters must not leak into it
+    import optax
+    base = fedjax.optimizers.create_optimizer_from_optax(optax.chain(optax.clip_by_global_norm(1.0),
+                                                                     optax.sgd(0.25, momentum=0.5)))
+  else:
+    base, _ = algos.make_opt(case['base'], 0.25)
   nt = [tuple(x) for x in case['ignored']]
   params = hk.data_structures.to_immutable_dict({
       'm1': {'w': jnp.array([1., 2.]), 'b': jnp.array(0.5)},
@@ -361,8 +373,8 @@ def plan(ctx):
   d = 3 if th else 2
   ctx.rule = ('AgnosticFedAvg: domains {2,3} x window {1,2,3} x domain lr {0,1/8,1} x all cohort histories to depth %d over '
               'cohorts that starve domains; APFL: client lr {1/8,4} x coefficient {0,0.5,1} x histories; HypCluster: clusters '
-              '{2,3} x server optimizer {sgd,momentum} x histories with reference per-cluster FedAvg; MimeLite: clip {1/8,1,1e6} '
-              'x base {sgd,momentum} x histories; ignore_grads_haiku: all 16 subsets x {sgd,momentum,adam} x 3 steps'
+              '{2,3} x server optimizer {sgd,momentum} (+ an L2 regularizer that takes part in the assignment) x histories with reference per-cluster FedAvg; MimeLite: clip {1/8,1,1e6} '
+              'x base {sgd,momentum} x histories; ignore_grads_haiku: all 16 subsets x {sgd,momentum,adam,global-norm-clip+momentum} x 3 steps'
               % (d + 1))
   ctx.assumptions += ['every history is executed; invariants are evaluated in every reached state',
                       'AgnosticFedAvg histories in which a domain has no example in the whole window are the known finding F13']
@@ -373,9 +385,10 @@ def plan(ctx):
   ctx.pmap('agnostic', ag, chunk=1)
   ctx.pmap('apfl', [{'lr': lr, 'coef': c, 'depth': d, 'seed': s} for lr in (0.125, 4.0) for c in (0.0, 0.5, 1.0)
                     if th or c != 0.0], chunk=1)
-  ctx.pmap('hyp', [{'clusters': k, 'sopt': so, 'depth': d, 'seed': s} for k in (2, 3) for so in ('sgd', 'mom')], chunk=1)
+  ctx.pmap('hyp', [{'clusters': k, 'sopt': so, 'depth': d, 'seed': s} for k in (2, 3) for so in ('sgd', 'mom')] +
+           [{'clusters': 3, 'sopt': 'sgd', 'depth': d, 'seed': s, 'reg': lam} for lam in ((0.5, 2.0) if th else (0.5,))], chunk=1)
   ctx.pmap('mimelite', [{'clip': c, 'base': b, 'depth': d, 'seed': s} for c in (0.125, 1.0, 1e6) for b in ('sgd', 'mom')],
            chunk=1)
-  ig = [{'base': b, 'ignored': [list(x) for x in sub]} for b in ('sgd', 'mom', 'adam') for r in range(0, 5)
+  ig = [{'base': b, 'ignored': [list(x) for x in sub]} for b in ('sgd', 'mom', 'adam', 'clipmom') for r in range(0, 5)
         for sub in itertools.combinations(NAMES, r)]
   ctx.pmap('ignore_grads', ig, chunk=12)
